@@ -58,6 +58,9 @@ def build(modes=("engine",), verbose=False):
     fcntl.flock(lock, fcntl.LOCK_EX)
     try:
         t0 = time.time()
+        for t in targets:   # a driver that is present but not executable is the debris of an interrupted link
+            if os.path.exists(t) and not os.access(t, os.X_OK):
+                os.unlink(t)
         cmd = ["make", "-C", os.path.join(VERIF, "harness"), "-j%d" % NCPU, "REPO=" + REPO] + list(targets)
         if "HGV_BUILD" in os.environ:
             cmd.append("B=" + BUILD)
